@@ -260,6 +260,46 @@ func (e *Exec) byContract(st *State, fr *Frame, key string, ct *Contract, names 
 		e.emit(st, name, "requires", rq.Labels, g, e.where(instr))
 		st.assume(g)
 	}
+	// closures passed for `callback` parameters: callback-invariant rule
+	type cbArg struct {
+		env *Env
+		ct  *Contract
+	}
+	var cbs []cbArg
+	for i, n := range names {
+		if _, isCb := ct.Extra["callback."+n]; !isCb || i >= len(args) {
+			continue
+		}
+		vf, ok := args[i].(VFunc)
+		if !ok || vf.Fn == nil {
+			continue
+		}
+		cct := e.prog.contracts.Funcs[fnKey(vf.Fn)]
+		if cct == nil {
+			e.unsupported("closure " + fnKey(vf.Fn) + " passed as callback has no contract")
+			continue
+		}
+		pf := &Frame{Fn: vf.Fn, Vals: map[ssa.Value]Value{}}
+		for j, fv := range vf.Fn.FreeVars {
+			if j < len(vf.Bindings) {
+				pf.Vals[fv] = vf.Bindings[j]
+			}
+		}
+		cenv := &Env{e: e, st: st, old: st, fr: pf, vars: map[string]Value{}, pos: true, pkgName: cct.Pkg}
+		// the callback invariant must hold after the callee's ghost prologue
+		ist := st.clone()
+		genv := &Env{e: e, st: ist, old: ist, vars: env.vars, pos: true, pkgName: ct.Pkg}
+		for _, gi := range ct.GhostInit {
+			ist.Ghost[gi.Name] = genv.eval(gi.E)
+		}
+		ienv := &Env{e: e, st: ist, old: ist, fr: pf, vars: map[string]Value{}, pos: true, pkgName: cct.Pkg}
+		for k, ci := range cct.CbInv {
+			nm := fmt.Sprintf("%s/cbinv-init(%s)#%d", e.ordinalName(instr, "call"), fnKey(vf.Fn), k+1)
+			e.emit(ist, nm, "invariant", ci.Labels, ienv.evalBool(ci.E), e.where(instr))
+		}
+		cbs = append(cbs, cbArg{cenv, cct})
+		e.byContr[fnKey(vf.Fn)+" (callback invariant)"] = true
+	}
 	pre := st.clone()
 	// havoc frame
 	if ct.AssignAll {
@@ -267,6 +307,11 @@ func (e *Exec) byContract(st *State, fr *Frame, key string, ct *Contract, names 
 	}
 	for _, a := range ct.Assigns {
 		env.havocTarget(a, callTag, pre)
+	}
+	for _, cb := range cbs {
+		for _, a := range cb.ct.Assigns {
+			cb.env.havocTarget(a, callTag+"cb", pre)
+		}
 	}
 	var res Value
 	if rt != nil {
@@ -279,6 +324,17 @@ func (e *Exec) byContract(st *State, fr *Frame, key string, ct *Contract, names 
 	post.bindResult(res)
 	for _, en := range ct.Ensures {
 		st.assume(post.evalBool(en.E))
+	}
+	for _, gs := range ct.GhostSet {
+		st.Ghost[gs.Name] = post.eval(gs.E)
+		st.Writes["ghost:"+gs.Name] = true
+	}
+	for _, cb := range cbs {
+		cb.env.pos = false
+		cb.env.old = pre
+		for _, ci := range cb.ct.CbInv {
+			st.assume(cb.env.evalBool(ci.E))
+		}
 	}
 	return res
 }
@@ -335,6 +391,9 @@ func (e *Exec) callAbstract(st *State, fr *Frame, vf VFunc, args []Value, c *ssa
 			for i := 0; i < sig.Params().Len(); i++ {
 				names = append(names, sig.Params().At(i).Name())
 			}
+			if len(ct.ParamNames) > 0 {
+				names = ct.ParamNames
+			}
 			res := e.byContract(st, fr, tk, ct, names, args, resultType(c), instr)
 			e.setResult(fr, ret, res, isDefer)
 			return nil, false
@@ -357,6 +416,9 @@ func (e *Exec) callAbstract(st *State, fr *Frame, vf VFunc, args []Value, c *ssa
 						n = fmt.Sprintf("arg%d", i)
 					}
 					names = append(names, n)
+				}
+				if len(ct.ParamNames) > 0 {
+					names = ct.ParamNames
 				}
 				res := e.byContract(st, fr, ck, ct, names, args, resultType(c), instr)
 				e.setResult(fr, ret, res, isDefer)
